@@ -39,6 +39,10 @@ CLAIMED = {
    text="For every parameter-dependent expression TLC generates and every non-empty subset of its free variables, D(**values) is built on the real domain; TLC checks that its membership bits equal the denotation of the ORIGINAL expression at (values + each point's remaining parameter row), that volume and bounding box agree with the original evaluated at the joint parameters, that samples lie in the denoted set, that necessary_variables equals FreeVars (before) and FreeVars minus the bound names (after), and that the original is unchanged. Geometry.tla additionally defines PE(e,b) and FreeVars and TLC checks In(PE(e,b)) = In(e, +b) on the model.",
    note="Trusted: TLC, vh/universe.py. Same bounded universe as C05; bindings t,k in {0,1,2}. Volume/box agreement is between two recordings of the real code. Dependent products use documented random estimates for volume/box and are compared on membership, samples and necessary_variables only. Known finding: single_bd_point_side (pinned by an existing test).",
    technique="TLC trace validation against the TLA+ denotation + TLC model check of the substitution law PE", ref="5 C17"),
+ "C02": dict(
+   text="Samplers.tla states the row bookkeeping rules (n rows per parameter row, pairing in order, product = first factor sampled with the rows of the second as parameters, sum = concatenation, append = column stack, static = cached, len = rows of a parameter-free call) as a recursive checker over decoded tables; TLC model-checks the code-shaped construction (repeat/repeat_interleave, evaluation order) against it for every AST, enumerates all sampler compositions up to depth 2 with 0/1/3 parameter rows, and validates the tables the real samplers return.",
+   note="Trusted: TLC; the id decoding of cells (moving interval reveals t, data ids k/16, grid position in twelfths). Bounded: 7 leaf kinds, n <= 3, depth <= 2, k in {0,1,3}; density-based samplers are covered by C10/C01, not here.",
+   technique="TLA+ Impl=>Abs model checking of the table construction + exhaustive AST enumeration by TLC + TLC trace validation", ref="5 C02"),
 }
 PENDING_REASON = "check not built yet in this round (design in DESIGN.md section 5); not claimed"
 
